@@ -241,7 +241,8 @@ func (p *c15) gen(tier string, seed int64, idx int) *c15Case {
 			toks = append(toks[:k], toks[k+1:]...)
 		}
 		txt := joinToks(r, toks)
-		if strings.ContainsAny(txt, "\"") {
+		if strings.ContainsAny(txt, "\"") || !yang.ValueInAssertedDomain(txt) {
+			// (a tab or line break next to a blank: how the YANG string is decoded is C08's unasserted corner)
 			continue
 		}
 		ex := c15Expr{name: "seeded"}
@@ -264,7 +265,7 @@ func (p *c15) gen(tier string, seed int64, idx int) *c15Case {
 			c.expectNS = ""
 		}
 		// known C04 findings are not valid test expressions here
-		if strings.Contains(c.exprText, "()") && !valid || regexp.MustCompile(`[0-9.][eE][0-9]`).MatchString(c.exprText) || regexp.MustCompile(`(current|deref)\s*\([^)]*\)\s*\[`).MatchString(c.exprText) {
+		if regexp.MustCompile(`\(\s*\)`).MatchString(c.exprText) && !valid || regexp.MustCompile(`[0-9.][eE][0-9]`).MatchString(c.exprText) || regexp.MustCompile(`(current|deref)\s*\([^)]*\)\s*\[`).MatchString(c.exprText) {
 			c.unasserted = true
 		}
 		return c
@@ -352,18 +353,29 @@ func (p *c15) Run(tier string, seed int64, idx int) core.CaseResult {
 	res.Ev("accepted_sets_with_namespace_check", 1)
 	if c.prefix != "" && c.expectNS != "" {
 		// every step written with the prefix must carry the namespace it denotes where the statement is written
-		prefixedLocals := map[string]bool{}
+		// (the same local name may also occur unprefixed, so compare per name how many steps carry which namespace)
+		prefixed := map[string]int{}
 		for _, m := range regexp.MustCompile(regexp.QuoteMeta(c.prefix)+`:([A-Za-z_][A-Za-z0-9_.\-]*)`).FindAllStringSubmatch(c.exprText, -1) {
-			prefixedLocals[m[1]] = true
+			prefixed[m[1]]++
 		}
+		unprefixed := map[string]int{}
+		for _, m := range regexp.MustCompile(`(^|[^A-Za-z0-9_.\-:])([A-Za-z_][A-Za-z0-9_.\-]*)`).FindAllStringSubmatch(c.exprText, -1) {
+			unprefixed[m[2]]++
+		}
+		withNS, otherNS := map[string]int{}, map[string]int{}
 		for _, m := range namePushRe.FindAllStringSubmatch(listing, -1) {
-			ns, local := m[1], m[2]
-			if prefixedLocals[local] {
-				res.Ev("prefixed_steps_checked", 1)
-				if ns != c.expectNS {
-					res.Fail("C15/prefix-resolved-in-wrong-scope/"+cls, input, fmt.Sprintf("step %s:%s resolved to namespace %q, the prefix denotes %q in the module where the statement is written\n%s", c.prefix, local, ns, c.expectNS, listing))
-					break
-				}
+			if m[1] == c.expectNS {
+				withNS[m[2]]++
+			} else {
+				otherNS[m[2]]++
+			}
+		}
+		for local, n := range prefixed {
+			res.Ev("prefixed_steps_checked", int64(n))
+			if withNS[local] < n || otherNS[local] > unprefixed[local] {
+				res.Fail("C15/prefix-resolved-in-wrong-scope/"+cls, input, fmt.Sprintf("%d step(s) written %s:%s, %d carry the namespace %q the prefix denotes in the module where the statement is written and %d another one (%d unprefixed occurrences of the name)\n%s",
+					n, c.prefix, local, withNS[local], c.expectNS, otherNS[local], unprefixed[local], listing))
+				break
 			}
 		}
 	}
